@@ -75,6 +75,10 @@ def run(chk):
     chk.label_of = label
     chk.groups = ["rangeproof"]
     variants = ["std"] if quick else ["std", "verify", "i64", "asan"]
+    # the harness interpreter itself does not free its line/output buffers at exit (harness/vh_main.c); LeakSanitizer would turn that
+    # into a non-zero exit status of the asan build.  Leaks are not part of this property: address/UB checking stays on.
+    import os
+    os.environ.setdefault("ASAN_OPTIONS", "detect_leaks=0")
     chk.build(variants)
     recs = chk.generate(MODULE, "C10_gen.cfg", "gen", timeout=2400 if quick else 7200)
     for v in variants:
